@@ -1,11 +1,456 @@
 package main
 
 import (
+	"bytes"
 	"fmt"
 	"go/ast"
+	"go/printer"
 	"go/token"
+	"reflect"
+	"strconv"
 )
 
+// sched-mode rewriting: goroutine / channel constructs -> vsched calls.
+//
+//	go f(a, b)            -> { _vgN_0, _vgN_1 := a, b; vsched.Go(func() { f(_vgN_0, _vgN_1) }) }
+//	ch <- v               -> vsched.SendOp(ch)(v)
+//	<-ch                  -> vsched.Recv(ch)          (v, ok := <-ch -> vsched.Recv2(ch))
+//	close(ch)             -> vsched.CloseAny(ch)
+//	select { ... }        -> _vselN := vsched.NewSelect(hasDefault); ... ; switch _vselN.Do() { case i: ... }
+//	for v := range ch     -> for { v, ok := vsched.Recv2(ch); if !ok { break }; ... }   (ch listed in range_chan)
+//	reflect.Select(c)     -> vsched.ReflectSelect(c);  x.TrySend(v) -> vsched.ReflectTrySend(x, v); x.TryRecv() -> vsched.ReflectTryRecv(x)
+//	log.Crit(...)         -> vsched.Crit(...)         (crit_panic)
+type rewriter struct {
+	fset       *token.FileSet
+	cfg        *config
+	n          int
+	used       bool
+	err        error
+	rangeSet   map[string]bool
+	hasReflect bool
+}
+
+const schedPkg = "vsched"
+
 func schedRewrite(fset *token.FileSet, f *ast.File, cfg *config) error {
-	return fmt.Errorf("sched mode not implemented yet")
+	rw := &rewriter{fset: fset, cfg: cfg, rangeSet: map[string]bool{}}
+	for _, r := range cfg.RangeChan {
+		rw.rangeSet[r] = true
+	}
+	for _, is := range f.Imports {
+		p, _ := strconv.Unquote(is.Path.Value)
+		if p == "reflect" {
+			rw.hasReflect = true
+		}
+		if is.Name != nil && is.Name.Name == schedPkg {
+			return fmt.Errorf("file already imports a package named %s", schedPkg)
+		}
+	}
+	for _, d := range f.Decls {
+		rw.node(reflect.ValueOf(d))
+	}
+	if rw.err != nil {
+		return rw.err
+	}
+	if rw.used {
+		addImport(f, schedPkg, shimBase+schedPkg)
+	}
+	return nil
+}
+
+func addImport(f *ast.File, name, path string) {
+	spec := &ast.ImportSpec{Name: ast.NewIdent(name), Path: &ast.BasicLit{Kind: token.STRING, Value: strconv.Quote(path)}}
+	for _, d := range f.Decls {
+		if gd, ok := d.(*ast.GenDecl); ok && gd.Tok == token.IMPORT {
+			if !gd.Lparen.IsValid() {
+				gd.Lparen = gd.Pos()
+				gd.Rparen = gd.End()
+			}
+			gd.Specs = append(gd.Specs, spec)
+			f.Imports = append(f.Imports, spec)
+			return
+		}
+	}
+	gd := &ast.GenDecl{Tok: token.IMPORT, Specs: []ast.Spec{spec}}
+	f.Decls = append([]ast.Decl{gd}, f.Decls...)
+	f.Imports = append(f.Imports, spec)
+}
+
+func (rw *rewriter) src(n ast.Node) string {
+	var b bytes.Buffer
+	printer.Fprint(&b, rw.fset, n)
+	return b.String()
+}
+
+func (rw *rewriter) fail(n ast.Node, format string, a ...any) {
+	if rw.err == nil {
+		rw.err = fmt.Errorf("%s: %s", rw.fset.Position(n.Pos()), fmt.Sprintf(format, a...))
+	}
+}
+
+func sel(pkg, name string) ast.Expr {
+	return &ast.SelectorExpr{X: ast.NewIdent(pkg), Sel: ast.NewIdent(name)}
+}
+
+func call(fun ast.Expr, args ...ast.Expr) *ast.CallExpr {
+	return &ast.CallExpr{Fun: fun, Args: args}
+}
+
+var (
+	exprType  = reflect.TypeOf((*ast.Expr)(nil)).Elem()
+	stmtType  = reflect.TypeOf((*ast.Stmt)(nil)).Elem()
+	exprSlice = reflect.TypeOf([]ast.Expr(nil))
+	stmtSlice = reflect.TypeOf([]ast.Stmt(nil))
+)
+
+// node walks an AST node generically (post-order) replacing expressions and statements.
+func (rw *rewriter) node(v reflect.Value) {
+	if !v.IsValid() {
+		return
+	}
+	switch v.Kind() {
+	case reflect.Interface:
+		if v.IsNil() {
+			return
+		}
+		rw.node(v.Elem())
+	case reflect.Ptr:
+		if v.IsNil() {
+			return
+		}
+		if _, ok := v.Interface().(*ast.Object); ok {
+			return
+		}
+		if _, ok := v.Interface().(*ast.Scope); ok {
+			return
+		}
+		if ss, ok := v.Interface().(*ast.SelectStmt); ok {
+			// handled by stmt(); only recurse into clause bodies/operands there
+			_ = ss
+		}
+		rw.node(v.Elem())
+	case reflect.Struct:
+		for i := 0; i < v.NumField(); i++ {
+			f := v.Field(i)
+			if !f.CanSet() {
+				continue
+			}
+			switch {
+			case f.Type() == exprType:
+				if !f.IsNil() {
+					f.Set(reflect.ValueOf(rw.expr(f.Interface().(ast.Expr))))
+				}
+			case f.Type() == exprSlice:
+				for j := 0; j < f.Len(); j++ {
+					e := f.Index(j)
+					if !e.IsNil() {
+						e.Set(reflect.ValueOf(rw.expr(e.Interface().(ast.Expr))))
+					}
+				}
+			case f.Type() == stmtType:
+				if !f.IsNil() {
+					out := rw.stmt(f.Interface().(ast.Stmt))
+					if len(out) == 1 {
+						f.Set(reflect.ValueOf(out[0]))
+					} else {
+						f.Set(reflect.ValueOf(ast.Stmt(&ast.BlockStmt{List: out})))
+					}
+				}
+			case f.Type() == stmtSlice:
+				var out []ast.Stmt
+				for j := 0; j < f.Len(); j++ {
+					out = append(out, rw.stmt(f.Index(j).Interface().(ast.Stmt))...)
+				}
+				f.Set(reflect.ValueOf(out))
+			default:
+				switch f.Kind() {
+				case reflect.Ptr, reflect.Interface, reflect.Struct:
+					rw.node(f)
+				case reflect.Slice:
+					for j := 0; j < f.Len(); j++ {
+						rw.node(f.Index(j))
+					}
+				}
+			}
+		}
+	}
+}
+
+// expr rewrites an expression (children first).
+func (rw *rewriter) expr(e ast.Expr) ast.Expr {
+	if e == nil {
+		return nil
+	}
+	rw.node(reflect.ValueOf(e))
+	switch x := e.(type) {
+	case *ast.UnaryExpr:
+		if x.Op == token.ARROW && rw.cfg.Sched {
+			rw.used = true
+			return call(sel(schedPkg, "Recv"), x.X)
+		}
+	case *ast.CallExpr:
+		if id, ok := x.Fun.(*ast.Ident); ok && id.Name == "close" && len(x.Args) == 1 && rw.cfg.Sched {
+			rw.used = true
+			return call(sel(schedPkg, "CloseAny"), x.Args[0])
+		}
+		if se, ok := x.Fun.(*ast.SelectorExpr); ok {
+			if pid, ok := se.X.(*ast.Ident); ok {
+				if rw.cfg.Sched && pid.Name == "reflect" && se.Sel.Name == "Select" && rw.hasReflect {
+					rw.used = true
+					return call(sel(schedPkg, "ReflectSelect"), x.Args...)
+				}
+				if rw.cfg.CritPanic && pid.Name == "log" && se.Sel.Name == "Crit" {
+					rw.used = true
+					c := call(sel(schedPkg, "Crit"), x.Args...)
+					c.Ellipsis = x.Ellipsis
+					return c
+				}
+			}
+			if rw.cfg.Sched && rw.hasReflect && se.Sel.Name == "TrySend" && len(x.Args) == 1 {
+				rw.used = true
+				return call(sel(schedPkg, "ReflectTrySend"), se.X, x.Args[0])
+			}
+			if rw.cfg.Sched && rw.hasReflect && se.Sel.Name == "TryRecv" && len(x.Args) == 0 {
+				rw.used = true
+				return call(sel(schedPkg, "ReflectTryRecv"), se.X)
+			}
+		}
+	}
+	return e
+}
+
+func (rw *rewriter) fresh(prefix string) string {
+	rw.n++
+	return fmt.Sprintf("_v%s%d", prefix, rw.n)
+}
+
+// stmt rewrites one statement into one or more statements.
+func (rw *rewriter) stmt(s ast.Stmt) []ast.Stmt {
+	if s == nil {
+		return nil
+	}
+	if !rw.cfg.Sched {
+		rw.node(reflect.ValueOf(s))
+		return []ast.Stmt{s}
+	}
+	switch x := s.(type) {
+	case *ast.LabeledStmt:
+		if ss, ok := x.Stmt.(*ast.SelectStmt); ok {
+			out := rw.selectStmt(ss)
+			last := out[len(out)-1]
+			out[len(out)-1] = &ast.LabeledStmt{Label: x.Label, Stmt: last}
+			return out
+		}
+		inner := rw.stmt(x.Stmt)
+		if len(inner) == 1 {
+			x.Stmt = inner[0]
+			return []ast.Stmt{x}
+		}
+		// label goes to the last statement (the loop / switch)
+		last := inner[len(inner)-1]
+		inner[len(inner)-1] = &ast.LabeledStmt{Label: x.Label, Stmt: last}
+		return inner
+	case *ast.SelectStmt:
+		return rw.selectStmt(x)
+	case *ast.GoStmt:
+		return rw.goStmt(x)
+	case *ast.SendStmt:
+		x.Chan = rw.expr(x.Chan)
+		x.Value = rw.expr(x.Value)
+		rw.used = true
+		return []ast.Stmt{&ast.ExprStmt{X: call(call(sel(schedPkg, "SendOp"), x.Chan), x.Value)}}
+	case *ast.AssignStmt:
+		if len(x.Lhs) == 2 && len(x.Rhs) == 1 {
+			if u, ok := x.Rhs[0].(*ast.UnaryExpr); ok && u.Op == token.ARROW {
+				u.X = rw.expr(u.X)
+				for i := range x.Lhs {
+					x.Lhs[i] = rw.expr(x.Lhs[i])
+				}
+				rw.used = true
+				x.Rhs[0] = call(sel(schedPkg, "Recv2"), u.X)
+				return []ast.Stmt{x}
+			}
+		}
+	case *ast.DeclStmt:
+		if gd, ok := x.Decl.(*ast.GenDecl); ok && gd.Tok == token.VAR {
+			for _, sp := range gd.Specs {
+				vs := sp.(*ast.ValueSpec)
+				if len(vs.Names) == 2 && len(vs.Values) == 1 {
+					if u, ok := vs.Values[0].(*ast.UnaryExpr); ok && u.Op == token.ARROW {
+						u.X = rw.expr(u.X)
+						rw.used = true
+						vs.Values[0] = call(sel(schedPkg, "Recv2"), u.X)
+						return []ast.Stmt{x}
+					}
+				}
+			}
+		}
+	case *ast.RangeStmt:
+		if rw.rangeSet[rw.src(x.X)] {
+			return rw.rangeChan(x)
+		}
+	}
+	rw.node(reflect.ValueOf(s))
+	return []ast.Stmt{s}
+}
+
+func (rw *rewriter) goStmt(g *ast.GoStmt) []ast.Stmt {
+	c := g.Call
+	rw.used = true
+	// rewrite inside the call first (function literal bodies, argument expressions)
+	c.Fun = rw.expr(c.Fun)
+	for i := range c.Args {
+		c.Args[i] = rw.expr(c.Args[i])
+	}
+	if fl, ok := c.Fun.(*ast.FuncLit); ok && len(c.Args) == 0 {
+		return []ast.Stmt{&ast.ExprStmt{X: call(sel(schedPkg, "Go"), fl)}}
+	}
+	var pre []ast.Stmt
+	var args []ast.Expr
+	if len(c.Args) > 0 {
+		var lhs []ast.Expr
+		base := rw.fresh("g")
+		for i := range c.Args {
+			id := ast.NewIdent(fmt.Sprintf("%s_%d", base, i))
+			lhs = append(lhs, id)
+			args = append(args, ast.NewIdent(id.Name))
+		}
+		pre = append(pre, &ast.AssignStmt{Lhs: lhs, Tok: token.DEFINE, Rhs: c.Args})
+	}
+	fun := c.Fun
+	// evaluate a method receiver / function value at the go statement, like Go does
+	if _, isLit := fun.(*ast.FuncLit); !isLit {
+		if se, ok := fun.(*ast.SelectorExpr); ok {
+			if _, isIdent := se.X.(*ast.Ident); !isIdent {
+				// complex receiver expression: bind the method value
+				id := ast.NewIdent(rw.fresh("gf"))
+				pre = append(pre, &ast.AssignStmt{Lhs: []ast.Expr{id}, Tok: token.DEFINE, Rhs: []ast.Expr{fun}})
+				fun = ast.NewIdent(id.Name)
+			}
+		}
+	}
+	inner := &ast.CallExpr{Fun: fun, Args: args, Ellipsis: c.Ellipsis}
+	if c.Ellipsis.IsValid() {
+		inner.Ellipsis = 1
+	}
+	lit := &ast.FuncLit{Type: &ast.FuncType{Params: &ast.FieldList{}}, Body: &ast.BlockStmt{List: []ast.Stmt{&ast.ExprStmt{X: inner}}}}
+	out := append(pre, &ast.ExprStmt{X: call(sel(schedPkg, "Go"), lit)})
+	if len(out) == 1 {
+		return out
+	}
+	return []ast.Stmt{&ast.BlockStmt{List: out}}
+}
+
+func (rw *rewriter) rangeChan(r *ast.RangeStmt) []ast.Stmt {
+	rw.used = true
+	r.X = rw.expr(r.X)
+	rw.node(reflect.ValueOf(r.Body))
+	okName := rw.fresh("ok")
+	var lhs ast.Expr = ast.NewIdent("_")
+	tok := token.DEFINE
+	if r.Key != nil {
+		lhs = r.Key
+		if r.Tok == token.ASSIGN {
+			// v = range ch : declare ok separately
+			decl := &ast.DeclStmt{Decl: &ast.GenDecl{Tok: token.VAR, Specs: []ast.Spec{&ast.ValueSpec{Names: []*ast.Ident{ast.NewIdent(okName)}, Type: ast.NewIdent("bool")}}}}
+			recv := &ast.AssignStmt{Lhs: []ast.Expr{lhs, ast.NewIdent(okName)}, Tok: token.ASSIGN, Rhs: []ast.Expr{call(sel(schedPkg, "Recv2"), r.X)}}
+			brk := &ast.IfStmt{Cond: &ast.UnaryExpr{Op: token.NOT, X: ast.NewIdent(okName)}, Body: &ast.BlockStmt{List: []ast.Stmt{&ast.BranchStmt{Tok: token.BREAK}}}}
+			body := append([]ast.Stmt{decl, recv, brk}, r.Body.List...)
+			return []ast.Stmt{&ast.ForStmt{Body: &ast.BlockStmt{List: body}}}
+		}
+	}
+	recv := &ast.AssignStmt{Lhs: []ast.Expr{lhs, ast.NewIdent(okName)}, Tok: tok, Rhs: []ast.Expr{call(sel(schedPkg, "Recv2"), r.X)}}
+	brk := &ast.IfStmt{Cond: &ast.UnaryExpr{Op: token.NOT, X: ast.NewIdent(okName)}, Body: &ast.BlockStmt{List: []ast.Stmt{&ast.BranchStmt{Tok: token.BREAK}}}}
+	body := append([]ast.Stmt{recv, brk}, r.Body.List...)
+	return []ast.Stmt{&ast.ForStmt{Body: &ast.BlockStmt{List: body}}}
+}
+
+func intLit(i int) ast.Expr {
+	if i < 0 {
+		return &ast.UnaryExpr{Op: token.SUB, X: &ast.BasicLit{Kind: token.INT, Value: strconv.Itoa(-i)}}
+	}
+	return &ast.BasicLit{Kind: token.INT, Value: strconv.Itoa(i)}
+}
+
+func (rw *rewriter) selectStmt(ss *ast.SelectStmt) []ast.Stmt {
+	rw.used = true
+	selName := rw.fresh("sel")
+	hasDefault := false
+	for _, c := range ss.Body.List {
+		if c.(*ast.CommClause).Comm == nil {
+			hasDefault = true
+		}
+	}
+	var pre []ast.Stmt
+	hd := "false"
+	if hasDefault {
+		hd = "true"
+	}
+	pre = append(pre, &ast.AssignStmt{Lhs: []ast.Expr{ast.NewIdent(selName)}, Tok: token.DEFINE,
+		Rhs: []ast.Expr{call(sel(schedPkg, "NewSelect"), ast.NewIdent(hd))}})
+	var clauses []ast.Stmt
+	idx := 0
+	for _, c := range ss.Body.List {
+		cc := c.(*ast.CommClause)
+		// body
+		var body []ast.Stmt
+		for _, b := range cc.Body {
+			body = append(body, rw.stmt(b)...)
+		}
+		if cc.Comm == nil {
+			clauses = append(clauses, &ast.CaseClause{List: []ast.Expr{intLit(-1)}, Body: body})
+			continue
+		}
+		switch cm := cc.Comm.(type) {
+		case *ast.SendStmt:
+			ch := rw.expr(cm.Chan)
+			val := rw.expr(cm.Value)
+			pre = append(pre, &ast.ExprStmt{X: call(call(sel(schedPkg, "AddSendOp"), ast.NewIdent(selName), ch), val)})
+		case *ast.ExprStmt:
+			u, ok := cm.X.(*ast.UnaryExpr)
+			if !ok || u.Op != token.ARROW {
+				// could be parenthesised
+				rw.fail(cm, "unsupported select comm clause: %s", rw.src(cm))
+				return []ast.Stmt{ss}
+			}
+			ch := rw.expr(u.X)
+			pre = append(pre, &ast.ExprStmt{X: call(sel(schedPkg, "AddRecv"), ast.NewIdent(selName), ch)})
+		case *ast.AssignStmt:
+			if len(cm.Rhs) != 1 {
+				rw.fail(cm, "unsupported select comm clause: %s", rw.src(cm))
+				return []ast.Stmt{ss}
+			}
+			u, ok := cm.Rhs[0].(*ast.UnaryExpr)
+			if !ok || u.Op != token.ARROW {
+				rw.fail(cm, "unsupported select comm clause: %s", rw.src(cm))
+				return []ast.Stmt{ss}
+			}
+			ch := rw.expr(u.X)
+			rx := rw.fresh("rx")
+			pre = append(pre, &ast.AssignStmt{Lhs: []ast.Expr{ast.NewIdent(rx)}, Tok: token.DEFINE,
+				Rhs: []ast.Expr{call(sel(schedPkg, "AddRecv"), ast.NewIdent(selName), ch)}})
+			allBlank := true
+			for _, l := range cm.Lhs {
+				if id, ok := l.(*ast.Ident); !ok || id.Name != "_" {
+					allBlank = false
+				}
+			}
+			var get ast.Stmt
+			if allBlank {
+				get = &ast.AssignStmt{Lhs: []ast.Expr{ast.NewIdent("_")}, Tok: token.ASSIGN, Rhs: []ast.Expr{ast.NewIdent(rx)}}
+			} else if len(cm.Lhs) == 1 {
+				get = &ast.AssignStmt{Lhs: cm.Lhs, Tok: cm.Tok, Rhs: []ast.Expr{call(&ast.SelectorExpr{X: ast.NewIdent(rx), Sel: ast.NewIdent("Val")})}}
+			} else {
+				get = &ast.AssignStmt{Lhs: cm.Lhs, Tok: cm.Tok, Rhs: []ast.Expr{call(&ast.SelectorExpr{X: ast.NewIdent(rx), Sel: ast.NewIdent("Get")})}}
+			}
+			body = append([]ast.Stmt{get}, body...)
+		default:
+			rw.fail(cc, "unsupported select comm clause")
+			return []ast.Stmt{ss}
+		}
+		clauses = append(clauses, &ast.CaseClause{List: []ast.Expr{intLit(idx)}, Body: body})
+		idx++
+	}
+	sw := &ast.SwitchStmt{Tag: call(&ast.SelectorExpr{X: ast.NewIdent(selName), Sel: ast.NewIdent("Do")}), Body: &ast.BlockStmt{List: clauses}}
+	return append(pre, sw)
 }
